@@ -1891,7 +1891,7 @@ Qed.
 
 (* plain = neither ResponseReceived, RequestReceived nor the binding ghost *)
 Definition plain (x : out) : bool :=
-  match x with OSent _ | OFail _ _ | OWire _ _ _ | OFeed _ _ | ODial _ | OOpen _ _ | OFbResp _ _ | OFbReq _ _ => true | _ => false end.
+  match x with OSent _ | OFail _ _ | OWire _ _ _ | OWireR _ _ _ | OFeed _ _ | ODial _ | OOpen _ _ | OFbResp _ _ | OFbReq _ _ => true | _ => false end.
 Definition plainl (o : list out) : Prop := forallb plain o = true.
 
 Lemma plainl_nil : plainl [].
@@ -4228,4 +4228,757 @@ Proof.
   pose proof (run_Inv3 cf evs (init_pst, init_env) [] Inv_init Inv3_init) as I3.
   pose proof (run_Inv cf evs (init_pst, init_env) [] Inv_init) as I. cbn [app fst] in *.
   exact (discharged_settled cf _ _ _ _ G I3 I D).
+Qed.
+
+(* ------------------------------------------------------------------ output alphabets, generically *)
+
+Section Alphabet.
+  Variable P : out -> bool.
+  Hypothesis P_sent : forall r, P (OSent r) = true.
+  Hypothesis P_fail : forall r c, P (OFail r c) = true.
+  Hypothesis P_resp : forall r l t, P (OResp r l t) = true.
+  Hypothesis P_fbresp : forall r n, P (OFbResp r n) = true.
+  Hypothesis P_dial : forall p, P (ODial p) = true.
+  Hypothesis P_open : forall sid p, P (OOpen sid p) = true.
+
+  Definition Pl (o : list out) : Prop := forallb P o = true.
+
+  Lemma Pl_app a b : Pl a -> Pl b -> Pl (a ++ b).
+  Proof. unfold Pl. rewrite forallb_app. intros -> ->. reflexivity. Qed.
+  Lemma Pl_map_fail {A} (g : A -> N) code l : Pl (map (fun a => OFail (g a) code) l).
+  Proof. unfold Pl. induction l; cbn; rewrite ?P_fail; auto. Qed.
+  Lemma Pl_verdict rid res : Pl (verdict rid res).
+  Proof.
+    unfold verdict, Pl. destruct res as [l t|c]; [cbn; rewrite P_resp; reflexivity|].
+    destruct (c =? E_CANCELED); cbn; rewrite ?P_fail; reflexivity.
+  Qed.
+  Lemma Pl_settle s p rid res : Pl (snd (settle s p rid res)).
+  Proof. unfold settle. destruct (_ && _); cbn [snd]; [apply Pl_verdict|reflexivity]. Qed.
+  Lemma Pl_complete s f res : Pl (snd (complete s f res)).
+  Proof. unfold complete. apply Pl_settle. Qed.
+  Lemma Pl_complete_all l : forall s res, Pl (snd (complete_all s l res)).
+  Proof.
+    induction l as [|f l IH]; intros s res; cbn [complete_all snd]; [reflexivity|].
+    pose proof (Pl_complete s f res) as H. destruct (complete s f res) as [s1 o1].
+    pose proof (IH s1 res) as H2. destruct (complete_all s1 l res) as [s2 o2]. cbn [snd] in *.
+    apply Pl_app; assumption.
+  Qed.
+  Lemma Pl_send s p dial len tag fb ok dok sid : Pl (snd (h_send s p dial len tag fb ok dok sid)).
+  Proof.
+    unfold h_send, Pl. repeat match goal with |- context [if ?x then _ else _] => destruct x end;
+      cbn; rewrite ?P_sent, ?P_fail, ?P_dial, ?P_open; reflexivity.
+  Qed.
+  Lemma Pl_established s p ok sid : Pl (snd (h_established s p ok sid)).
+  Proof.
+    unfold h_established. destruct (memN p (peers s)); [reflexivity|].
+    destruct (filter _ (dials s)) as [|d0 mine]; [reflexivity|].
+    destruct (firstn ok (d0 :: mine)); cbn [snd]; [apply (Pl_map_fail (fun d : N * req => q_rid (snd d)))|].
+    apply Pl_app; [apply (Pl_map_fail (fun d : N * req => q_rid (snd d)))|].
+    unfold Pl. induction (number_pouts p sid (p0 :: l)); cbn; rewrite ?P_open; auto.
+  Qed.
+  Lemma Pl_closed s p : Pl (snd (h_closed s p)).
+  Proof. unfold h_closed. destruct (memN p _); cbn [snd]; [apply (Pl_map_fail snd)|reflexivity]. Qed.
+  Lemma Pl_dialfail s p : Pl (snd (h_dialfail s p)).
+  Proof. unfold h_dialfail. cbn [snd]. apply (Pl_map_fail (fun d : N * req => q_rid (snd d))). Qed.
+  Lemma Pl_openfail s sid u : Pl (snd (h_openfail s sid u)).
+  Proof. unfold h_openfail, Pl. destruct (find_po sid (pouts s)); cbn; rewrite ?P_fail; reflexivity. Qed.
+  Lemma Pl_breakw s c : Pl (snd (fut_breakw s c)).
+  Proof.
+    unfold fut_breakw. destruct (find_fut c (futs s)) as [f|]; [|reflexivity].
+    destruct (f_wait f); [reflexivity|apply Pl_complete].
+  Qed.
+  Lemma Pl_fb_resp f o : Pl (fb_resp f o).
+  Proof.
+    unfold fb_resp, Pl. destruct (f_neg f =? 0); [reflexivity|].
+    induction o as [|x o IH]; [reflexivity|]. cbn [flat_map]. rewrite forallb_app, IH, andb_true_r.
+    destruct x; cbn; rewrite ?P_fbresp; reflexivity.
+  Qed.
+  Lemma Pl_read s c res : Pl (snd (fut_read s c res)).
+  Proof.
+    unfold fut_read. destruct (find_fut c (futs s)) as [f|]; [|reflexivity].
+    destruct (f_wait f); [|reflexivity].
+    pose proof (Pl_complete s f res) as H. destruct (complete s f res) as [s1 o]. cbn [snd] in *.
+    apply Pl_app; [exact H|apply Pl_fb_resp].
+  Qed.
+  Lemma Pl_advance s now : Pl (snd (fut_advance s now)).
+  Proof. unfold fut_advance. apply Pl_complete_all. Qed.
+  Lemma Pl_cancel s rid : Pl (snd (h_cancel s rid)).
+  Proof.
+    unfold h_cancel. destruct (find _ (futs s)) as [f|]; [|reflexivity].
+    destruct (f_wait f); [apply Pl_complete|reflexivity].
+  Qed.
+  Lemma Pl_in o x : Pl o -> In x o -> P x = true.
+  Proof. unfold Pl. rewrite forallb_forall. auto. Qed.
+End Alphabet.
+
+(* no feedback / no frame on the wire *)
+Definition nfd (x : out) : bool := match x with OFeed _ _ => false | _ => true end.
+Definition nwr (x : out) : bool := match x with OWire _ _ _ => false | _ => true end.
+
+Definition nfdl := Pl nfd.
+Lemma nfd_no_feed o i b : nfdl o -> ~ In (OFeed i b) o.
+Proof. intros H Hin. pose proof (Pl_in nfd o _ H Hin). discriminate. Qed.
+Lemma nfdl_app a b : nfdl a -> nfdl b -> nfdl (a ++ b).
+Proof. apply Pl_app. Qed.
+
+Lemma opened_body_nfd cf0 s po c gate now neg : nfdl (snd (opened_body cf0 s po c gate now neg)).
+Proof.
+  unfold opened_body. cbn [q_rid q_len q_tag q_fb].
+  destruct (max_size cf0 <? _); [apply Pl_settle; reflexivity|].
+  destruct gate as [|[g|g|]]; try (apply Pl_settle; reflexivity); reflexivity.
+Qed.
+Lemma unblock_nfd cf0 s c now : nfdl (snd (fut_unblock cf0 s c now)).
+Proof.
+  unfold fut_unblock. destruct (find_fut c (futs s)) as [f|]; [|reflexivity].
+  destruct (f_wait f); [reflexivity|]. destruct (f_cancel f); [|reflexivity].
+  pose proof (Pl_complete nfd (fun _ _ => eq_refl) (fun _ _ _ => eq_refl) s f (RErr E_CANCELED)) as H.
+  destruct (complete s f _) as [s1 o]. cbn [snd] in *. unfold nfdl, Pl in *. cbn [forallb nfd]. exact H.
+Qed.
+Lemma inread_nfd s c good len tag : nfdl (snd (h_inread s c good len tag)).
+Proof.
+  unfold h_inread. destruct (find_rd c (rdrs s)) as [rd|]; [|reflexivity].
+  destruct (_ && _); [destruct good; [destruct (r_neg rd =? 0)|]|]; reflexivity.
+Qed.
+
+Definition wired (o : list out) : Prop := exists c l t, In (OWireR c l t) o.
+
+Lemma uresp_feed cf0 s irid len tag fb gate now i :
+  In (OFeed i true) (snd (h_uresp cf0 s irid len tag fb gate now)) -> wired (snd (h_uresp cf0 s irid len tag fb gate now)).
+Proof.
+  unfold h_uresp, feed. destruct (find_rs irid (rsps s)) as [rs|]; [|intros []].
+  destruct (s_w rs); [intros []|].
+  destruct fb; (destruct (max_size cf0 <? len); [cbn; intros H; repeat destruct H as [H|H]; try discriminate; tauto|]);
+    destruct gate as [|[g|g|]]; cbn [snd]; intros H; cbn in H; repeat destruct H as [H|H]; try discriminate; try tauto;
+    eexists; eexists; eexists; left; reflexivity.
+Qed.
+Lemma rsp_gate_feed s c ok i :
+  In (OFeed i true) (snd (rsp_gate s c ok)) -> wired (snd (rsp_gate s c ok)).
+Proof.
+  unfold rsp_gate, feed. destruct (find _ (rsps s)) as [rs|]; [|intros []].
+  destruct (s_w rs) as [[[l t] d]|]; [|intros []]. cbn [snd].
+  destruct ok; destruct (s_fb rs); cbn; intros H; repeat destruct H as [H|H]; try discriminate; try tauto;
+    eexists; eexists; eexists; left; reflexivity.
+Qed.
+Lemma adv_out_feed s now i : ~ In (OFeed i true) (rsp_advance_out s now).
+Proof.
+  unfold rsp_advance_out. intros H. apply in_flat_map in H. destruct H as [a [_ H]].
+  destruct (s_w a) as [[[x y] d]|]; [|destruct H]. destruct (d <=? now); [|destruct H].
+  unfold feed in H. destruct (s_fb a); [|destruct H]. destruct H as [H|[]]. discriminate.
+Qed.
+
+Lemma wired_app_l a b : wired a -> wired (a ++ b).
+Proof. intros [c [l [t H]]]. exists c, l, t. apply in_or_app. left. exact H. Qed.
+Lemma wired_app_r a b : wired b -> wired (a ++ b).
+Proof. intros [c [l [t H]]]. exists c, l, t. apply in_or_app. right. exact H. Qed.
+
+(* feedback () is sent only in a step in which a frame went out *)
+Lemma step_feed cf0 s en e i :
+  In (OFeed i true) (snd (fst (step cf0 (s, en) e))) -> wired (snd (fst (step cf0 (s, en) e))).
+Proof.
+  assert (B := fun o (H : nfdl o) (Hin : In (OFeed i true) o) => False_ind (wired o) (nfd_no_feed o i true H Hin)).
+  destruct e; cbn [step].
+  - match goal with |- context [h_send s p dial len tag ?fb0 ?a0 ?b0 ?c0] =>
+      pose proof (Pl_send nfd (fun _ => eq_refl) (fun _ _ => eq_refl) (fun _ => eq_refl) (fun _ _ => eq_refl) s p dial len tag fb0 a0 b0 c0) as H end.
+    destruct (h_send _ _ _ _ _ _ _ _ _) as [s1 o]. apply B. exact H.
+  - pose proof (Pl_cancel nfd (fun _ _ => eq_refl) (fun _ _ _ => eq_refl) s rid) as H. destruct (h_cancel s rid) as [s1 o]. apply B. exact H.
+  - destruct (conn_of p en); cbn [fst snd]; [intros []|].
+    match goal with |- context [h_established s p ?n ?sd] =>
+      pose proof (Pl_established nfd (fun _ _ => eq_refl) (fun _ _ => eq_refl) s p n sd) as H end.
+    destruct (h_established _ _ _ _) as [s1 o]. apply B. exact H.
+  - destruct (conn_of p en); cbn [fst snd]; [|intros []].
+    pose proof (Pl_closed nfd (fun _ _ => eq_refl) s p) as H. destruct (h_closed s p) as [s1 o]. apply B. exact H.
+  - pose proof (Pl_dialfail nfd (fun _ _ => eq_refl) s p) as H. destruct (h_dialfail s p) as [s1 o]. apply B. exact H.
+  - destruct (nth_mod k (opens en)) as [[sid q]|]; cbn [fst snd]; [|intros []].
+    unfold h_opened. destruct (find_po sid (pouts s)) as [po|]; [|intros []].
+    pose proof (opened_body_nfd cf0 s po (N.of_nat (length (chans en))) (N.min gate 2) (now en) neg) as H.
+    destruct (opened_body _ _ _ _ _ _ _) as [s1 o]. cbn [fst snd] in *. intros [Hin|Hin]; [discriminate|].
+    destruct (nfd_no_feed _ _ _ H Hin).
+  - destruct (nth_mod k (opens en)) as [[sid q]|]; cbn [fst snd]; [|intros []].
+    pose proof (Pl_openfail nfd (fun _ _ => eq_refl) s sid unsupported) as H. destruct (h_openfail _ _ _) as [s1 o]. apply B. exact H.
+  - destruct (chans en) as [|ch0 chs]; cbn [fst snd]; [intros []|].
+    destruct (nth_error _ _) as [ch|]; cbn [fst snd]; [|intros []].
+    destruct (c_gate ch =? 0); cbn [fst snd]; [|intros []].
+    pose proof (unblock_nfd cf0 s (k mod N.of_nat (length (ch0 :: chs))) (now en)) as H1.
+    destruct (fut_unblock _ _ _ _) as [s1 o1]. cbn [fst snd] in *.
+    pose proof (rsp_gate_feed s1 (k mod N.of_nat (length (ch0 :: chs))) true i) as H2.
+    destruct (rsp_gate _ _ _) as [s2 o2]. cbn [fst snd] in *.
+    intros Hin. apply in_app_or in Hin. destruct Hin as [Hin|Hin]; [destruct (nfd_no_feed _ _ _ H1 Hin)|].
+    apply wired_app_r. exact (H2 Hin).
+  - destruct (chans en) as [|ch0 chs]; cbn [fst snd]; [intros []|].
+    destruct (nth_error _ _) as [ch|]; cbn [fst snd]; [|intros []].
+    destruct (c_gate ch =? 2); cbn [fst snd]; [intros []|].
+    pose proof (Pl_breakw nfd (fun _ _ => eq_refl) (fun _ _ _ => eq_refl) s (k mod N.of_nat (length (ch0 :: chs)))) as H1.
+    destruct (fut_breakw _ _) as [s1 o1]. cbn [fst snd] in *.
+    pose proof (rsp_gate_feed s1 (k mod N.of_nat (length (ch0 :: chs))) false i) as H2.
+    destruct (rsp_gate _ _ _) as [s2 o2]. cbn [fst snd] in *.
+    intros Hin. apply in_app_or in Hin. destruct Hin as [Hin|Hin]; [destruct (nfd_no_feed _ _ _ H1 Hin)|].
+    apply wired_app_r. exact (H2 Hin).
+  - destruct (chans en) as [|ch0 chs]; cbn [fst snd]; [intros []|].
+    destruct (nth_error _ _) as [ch|]; cbn [fst snd]; [|intros []].
+    destruct (c_out ch && c_seen ch); cbn [fst snd]; [|intros []].
+    match goal with |- context [fut_read s ?c ?r] =>
+      pose proof (Pl_read nfd (fun _ _ => eq_refl) (fun _ _ _ => eq_refl) (fun _ _ => eq_refl) s c r) as H; destruct (fut_read s c r) as [s1 o] end.
+    apply B. exact H.
+  - destruct (chans en) as [|ch0 chs]; cbn [fst snd]; [intros []|].
+    destruct (nth_error _ _) as [ch|]; cbn [fst snd]; [|intros []].
+    destruct (c_out ch); [destruct (c_seen ch)|]; cbn [fst snd]; try (intros []).
+    + match goal with |- context [fut_read s ?c ?r] =>
+        pose proof (Pl_read nfd (fun _ _ => eq_refl) (fun _ _ _ => eq_refl) (fun _ _ => eq_refl) s c r) as H; destruct (fut_read s c r) as [s1 o] end.
+      apply B. exact H.
+    + match goal with |- context [h_inread s ?c ?g ?l ?t] =>
+        pose proof (inread_nfd s c g l t) as H; destruct (h_inread s c g l t) as [s1 o] end. apply B. exact H.
+  - destruct (chans en) as [|ch0 chs]; cbn [fst snd]; [intros []|].
+    destruct (nth_error _ _) as [ch|]; cbn [fst snd]; [|intros []].
+    destruct (c_out ch); [destruct (c_seen ch)|]; cbn [fst snd]; try (intros []).
+    + match goal with |- context [fut_read s ?c ?r] =>
+        pose proof (Pl_read nfd (fun _ _ => eq_refl) (fun _ _ _ => eq_refl) (fun _ _ => eq_refl) s c r) as H; destruct (fut_read s c r) as [s1 o] end.
+      apply B. exact H.
+    + match goal with |- context [h_inread s ?c ?g ?l ?t] =>
+        pose proof (inread_nfd s c g l t) as H; destruct (h_inread s c g l t) as [s1 o] end. apply B. exact H.
+  - pose proof (Pl_advance nfd (fun _ _ => eq_refl) (fun _ _ _ => eq_refl) s (now en + dt)) as H.
+    destruct (fut_advance s (now en + dt)) as [s1 o]. cbn [fst snd] in *.
+    intros Hin. apply in_app_or in Hin. destruct Hin as [Hin|Hin]; [destruct (nfd_no_feed _ _ _ H Hin)|destruct (adv_out_feed _ _ _ Hin)].
+  - destruct (conn_of p en); cbn [fst snd]; [|intros []].
+    pose proof (inopen_shape cf0 s p (N.of_nat (length (chans en))) neg) as (O & _).
+    destruct (h_inopen _ _ _ _ _) as [s1 o]. cbn [fst snd] in *. subst o. intros [].
+  - destruct (chans en) as [|ch0 chs]; cbn [fst snd]; [intros []|].
+    destruct (nth_error _ _) as [ch|]; cbn [fst snd]; [|intros []].
+    destruct (negb (c_out ch)); cbn [fst snd]; [|intros []].
+    match goal with |- context [h_inread s ?c ?g ?l ?t] =>
+      pose proof (inread_nfd s c g l t) as H; destruct (h_inread s c g l t) as [s1 o] end. apply B. exact H.
+  - destruct (nth_mod k (hpend en)) as [irid|]; cbn [fst snd]; [|intros []].
+    match goal with |- context [h_uresp cf0 s ?a ?b ?c ?f ?d ?e0] =>
+      pose proof (uresp_feed cf0 s a b c f d e0 i) as H; destruct (h_uresp cf0 s a b c f d e0) as [s1 o] end. exact H.
+  - destruct (nth_mod k (hpend en)) as [irid|]; cbn [fst snd]; intros [].
+  - cbn [fst snd]. intros [].
+  - cbn [fst snd]. intros [].
+  - cbn [fst snd]. intros [].
+  - cbn [fst snd]. intros [].
+Qed.
+
+Theorem feedback_only_after_wire cf0 evs e o tg i :
+  In (e, o, tg) (run_steps cf0 (init_pst, init_env) evs) -> In (OFeed i true) o ->
+  exists c l t, In (OWireR c l t) o.
+Proof.
+  intros Hin Hf. destruct (steps_are_steps cf0 evs _ _ Hin) as [s [en [Eo _]]]. cbn [fst snd] in Eo.
+  rewrite Eo in *. exact (step_feed cf0 s en e i Hf).
+Qed.
+
+(* ------------------------------------------------------------------ the request frame on the wire *)
+
+Definition nwrl := Pl nwr.
+Lemma nwr_no_wire o c l t : nwrl o -> ~ In (OWire c l t) o.
+Proof. intros H Hin. pose proof (Pl_in nwr o _ H Hin). discriminate. Qed.
+
+Lemma uresp_nwr cf0 s irid len tag fb gate now : nwrl (snd (h_uresp cf0 s irid len tag fb gate now)).
+Proof.
+  unfold h_uresp, feed. destruct (find_rs irid (rsps s)) as [rs|]; [|reflexivity].
+  destruct (s_w rs); [reflexivity|]. destruct fb; (destruct (max_size cf0 <? len); [reflexivity|]);
+  destruct gate as [|[g|g|]]; reflexivity.
+Qed.
+Lemma rsp_gate_nwr s c ok : nwrl (snd (rsp_gate s c ok)).
+Proof.
+  unfold rsp_gate. destruct (find _ (rsps s)) as [rs|]; [|reflexivity].
+  destruct (s_w rs) as [[[l t] d]|]; [|reflexivity]. unfold feed. destruct ok; destruct (s_fb rs); reflexivity.
+Qed.
+Lemma adv_out_nwr s now : nwrl (rsp_advance_out s now).
+Proof.
+  unfold rsp_advance_out, nwrl, Pl. induction (rsps s) as [|a l IH]; [reflexivity|].
+  cbn [flat_map]. rewrite forallb_app, IH, andb_true_r. destruct (s_w a) as [[[x y] d]|]; [|reflexivity].
+  destruct (d <=? now); [|reflexivity]. unfold feed. destruct (s_fb a); reflexivity.
+Qed.
+Lemma inread_nwr s c good len tag : nwrl (snd (h_inread s c good len tag)).
+Proof.
+  unfold h_inread. destruct (find_rd c (rdrs s)) as [rd|]; [|reflexivity].
+  destruct (_ && _); [destruct good; [destruct (r_neg rd =? 0)|]|]; reflexivity.
+Qed.
+
+(* the request contexts held by the protocol *)
+Definition reqs (s : pst) : list req := map snd (dials s) ++ map po_req (pouts s) ++ map f_req (futs s).
+Definition ReqsSub (s s' : pst) : Prop := forall q, In q (reqs s') -> In q (reqs s).
+
+Lemma in_reqs s q :
+  In q (reqs s) <-> (exists d, In d (dials s) /\ snd d = q) \/ (exists po, In po (pouts s) /\ po_req po = q) \/
+                    (exists f, In f (futs s) /\ f_req f = q).
+Proof.
+  unfold reqs. rewrite !in_app_iff, !in_map_iff. firstorder.
+Qed.
+
+Definition FutsReq (s s' : pst) : Prop := forall g, In g (futs s') -> exists f, In f (futs s) /\ f_req f = f_req g.
+
+Lemma ReqsSub_keep s s' : dials s' = dials s -> pouts s' = pouts s -> FutsReq s s' -> ReqsSub s s'.
+Proof.
+  intros D P F q. rewrite !in_reqs, D, P. intros [H|[H|[g [Hg E]]]]; [left; exact H|right; left; exact H|].
+  right. right. destruct (F g Hg) as [f [Hf Ef]]. exists f. split; [exact Hf|congruence].
+Qed.
+Lemma ReqsSub_refl s : ReqsSub s s.
+Proof. intros q H. exact H. Qed.
+Lemma ReqsSub_trans s s1 s2 : ReqsSub s s1 -> ReqsSub s1 s2 -> ReqsSub s s2.
+Proof. intros A B q H. apply A, B, H. Qed.
+Lemma FutsReq_sub s s' : (forall g, In g (futs s') -> In g (futs s)) -> FutsReq s s'.
+Proof. intros H g Hg. exists g. auto. Qed.
+
+Lemma complete_ReqsSub s f res : ReqsSub s (fst (complete s f res)).
+Proof.
+  pose proof (complete_Keep3 s f res) as (D & P & _).
+  apply ReqsSub_keep; auto. apply FutsReq_sub. apply complete_futs_sub.
+Qed.
+Lemma complete_all_ReqsSub l s res : ReqsSub s (fst (complete_all s l res)).
+Proof.
+  pose proof (complete_all_Keep3 l s res) as (D & P & _).
+  apply ReqsSub_keep; auto. apply FutsReq_sub. apply complete_all_futs_sub.
+Qed.
+Lemma unblock_ReqsSub cf0 s c now : ReqsSub s (fst (fut_unblock cf0 s c now)).
+Proof.
+  pose proof (unblock_Keep3 cf0 s c now) as (D & P & _). apply ReqsSub_keep; auto.
+  unfold fut_unblock. destruct (find_fut c (futs s)) as [f|]; [|apply FutsReq_sub; auto].
+  destruct (f_wait f); [apply FutsReq_sub; auto|]. destruct (f_cancel f).
+  - pose proof (complete_futs_sub s f (RErr E_CANCELED)) as H. destruct (complete s f _) as [s1 o]. apply FutsReq_sub. exact H.
+  - cbn [fst]. intros g Hg. simp_sets. unfold to_wait in Hg. apply in_map_iff in Hg. destruct Hg as [f0 [<- H0]].
+    exists f0. split; [exact H0|]. destruct (f_chan f0 =? c); reflexivity.
+Qed.
+Lemma breakw_ReqsSub s c : ReqsSub s (fst (fut_breakw s c)).
+Proof.
+  unfold fut_breakw. destruct (find_fut c (futs s)) as [f|]; [|apply ReqsSub_refl].
+  destruct (f_wait f); [apply ReqsSub_refl|apply complete_ReqsSub].
+Qed.
+Lemma read_ReqsSub s c res : ReqsSub s (fst (fut_read s c res)).
+Proof.
+  unfold fut_read. destruct (find_fut c (futs s)) as [f|]; [|apply ReqsSub_refl].
+  destruct (f_wait f); [|apply ReqsSub_refl].
+  pose proof (complete_ReqsSub s f res) as H. destruct (complete s f res) as [s1 o]. exact H.
+Qed.
+Lemma cancel_ReqsSub s rid : ReqsSub s (fst (h_cancel s rid)).
+Proof.
+  unfold h_cancel. destruct (find _ (futs s)) as [f|]; [|apply ReqsSub_refl].
+  destruct (f_wait f); [apply complete_ReqsSub|].
+  cbn [fst]. apply ReqsSub_keep; [reflexivity|reflexivity|].
+  intros g Hg. simp_sets. unfold mark_cancel in Hg. apply in_map_iff in Hg. destruct Hg as [f0 [<- H0]].
+  exists f0. split; [exact H0|]. destruct (q_rid (f_req f0) =? rid); reflexivity.
+Qed.
+Lemma same_ledger_ReqsSub s s' : same_ledger s s' -> ReqsSub s s'.
+Proof. intros (D & _ & P & F & _). apply ReqsSub_keep; auto. apply FutsReq_sub. rewrite F. auto. Qed.
+Lemma closed_ReqsSub s p : ReqsSub s (fst (h_closed s p)).
+Proof.
+  intros q. rewrite !in_reqs. unfold h_closed. simp_sets. destruct (memN p (peers s)); cbn [fst]; simp_sets;
+    (intros [H|[[po [Hpo E]]|H]]; [left; exact H|right; left; exists po; apply filter_In in Hpo; destruct Hpo; split; assumption|right; right; exact H]).
+Qed.
+Lemma dialfail_ReqsSub s p : ReqsSub s (fst (h_dialfail s p)).
+Proof.
+  intros q. rewrite !in_reqs. unfold h_dialfail. cbn [fst]. simp_sets.
+  intros [[d [Hd E]]|H]; [left; exists d; apply filter_In in Hd; tauto|right; exact H].
+Qed.
+Lemma openfail_ReqsSub s sid u : ReqsSub s (fst (h_openfail s sid u)).
+Proof.
+  intros q. rewrite !in_reqs. unfold h_openfail. destruct (find_po sid (pouts s)); cbn [fst]; simp_sets; [|auto].
+  intros [H|[[po [Hpo E]]|H]]; [left; exact H|right; left; exists po; unfold drop_po in Hpo; apply filter_In in Hpo; tauto|right; right; exact H].
+Qed.
+Lemma number_pouts_reqs p sid l po : In po (number_pouts p sid l) -> exists d, In d l /\ snd d = po_req po.
+Proof.
+  revert sid. induction l as [|[a q] l IH]; intros sid; [intros []|].
+  cbn [number_pouts In]. intros [<-|H]; [exists (a, q); auto|]. destruct (IH _ H) as [d [Hd E]]. exists d. auto.
+Qed.
+Lemma established_ReqsSub s p ok sid : ReqsSub s (fst (h_established s p ok sid)).
+Proof.
+  intros q. rewrite !in_reqs. unfold h_established. destruct (memN p (peers s)); cbn [fst]; [auto|]. simp_sets.
+  assert (HD : forall d, In d (filter (fun d : N * req => negb (fst d =? p)) (dials s)) -> In d (dials s))
+    by (intros d H; apply filter_In in H; tauto).
+  destruct (filter (fun d : N * req => fst d =? p) (dials s)) as [|d0 mine] eqn:M; cbn [fst]; simp_sets.
+  - intros [[d [Hd E]]|H]; [left; exists d; auto|right; exact H].
+  - assert (Hm : forall d, In d (d0 :: mine) -> In d (dials s)).
+    { intros d Hd. rewrite <- M in Hd. apply filter_In in Hd. tauto. }
+    destruct (firstn ok (d0 :: mine)) as [|x okl] eqn:Fo; cbn [fst]; simp_sets.
+    + intros [[d [Hd E]]|H]; [left; exists d; auto|right; exact H].
+    + intros [[d [Hd E]]|[[po [Hpo E]]|H]]; [left; exists d; auto| |right; right; exact H].
+      apply in_app_or in Hpo. destruct Hpo as [Hpo|Hpo]; [right; left; exists po; auto|].
+      left. destruct (number_pouts_reqs _ _ _ _ Hpo) as [d [Hd Ed]]. exists d. split; [|congruence].
+      apply Hm. rewrite <- (firstn_skipn ok (d0 :: mine)), Fo. apply in_or_app. left. exact Hd.
+Qed.
+
+Lemma unblock_wire cf0 s c now c' l t :
+  In (OWire c' l t) (snd (fut_unblock cf0 s c now)) ->
+  exists f, In f (futs s) /\ f_chan f = c' /\ l = q_len (f_req f) /\ t = q_tag (f_req f).
+Proof.
+  unfold fut_unblock. destruct (find_fut c (futs s)) as [f|] eqn:F; [|intros []].
+  apply find_some in F. destruct F as [Hf Ec]. apply N.eqb_eq in Ec.
+  destruct (f_wait f); [intros []|]. destruct (f_cancel f).
+  - pose proof (Pl_complete nwr (fun _ _ => eq_refl) (fun _ _ _ => eq_refl) s f (RErr E_CANCELED)) as H.
+    destruct (complete s f _) as [s1 o]. cbn [snd] in *. intros [Hin|Hin]; [|destruct (nwr_no_wire _ _ _ _ H Hin)].
+    injection Hin as <- <- <-. exists f. auto.
+  - cbn [snd]. intros [Hin|[]]. injection Hin as <- <- <-. exists f. auto.
+Qed.
+Lemma opened_body_wire cf0 s po c gate now neg c' l t :
+  In (OWire c' l t) (snd (opened_body cf0 s po c gate now neg)) ->
+  c' = c /\ l = fst (chosen (po_req po) neg) /\ t = snd (chosen (po_req po) neg).
+Proof.
+  unfold opened_body. cbn [q_rid q_len q_tag q_fb].
+  assert (H : forall res, ~ In (OWire c' l t) (snd (settle (set_pouts s (drop_po po (pouts s))) (po_peer po) (q_rid (po_req po)) res))).
+  { intros res. apply nwr_no_wire. apply Pl_settle; reflexivity. }
+  destruct (max_size cf0 <? _); [intros Hin; destruct (H _ Hin)|].
+  destruct gate as [|[g|g|]]; try (intros Hin; destruct (H _ Hin)); cbn [snd]; [intros []|].
+  intros [Hin|[]]. injection Hin as <- <- <-. auto.
+Qed.
+
+(* where a request frame on the wire comes from *)
+Lemma step_wire cf0 s en e c l t :
+  In (OWire c l t) (snd (fst (step cf0 (s, en) e))) ->
+  (exists f, In f (futs s) /\ f_chan f = c /\ l = q_len (f_req f) /\ t = q_tag (f_req f) /\
+             forall c' r, ~ In (OBind c' r) (snd (fst (step cf0 (s, en) e)))) \/
+  (exists k g ng po, e = EOpened k g ng /\ In po (pouts s) /\ c = nch en /\
+                     l = fst (chosen (po_req po) ng) /\ t = snd (chosen (po_req po) ng) /\
+                     forall c' r, In (OBind c' r) (snd (fst (step cf0 (s, en) e))) -> c' = c /\ r = rid_po po).
+Proof.
+  assert (B := fun o (H : nwrl o) (Hin : In (OWire c l t) o) => False_ind
+     ((exists f, In f (futs s) /\ f_chan f = c /\ l = q_len (f_req f) /\ t = q_tag (f_req f) /\
+                 forall c' r, ~ In (OBind c' r) o) \/
+      (exists k g ng po, e = EOpened k g ng /\ In po (pouts s) /\ c = nch en /\
+                     l = fst (chosen (po_req po) ng) /\ t = snd (chosen (po_req po) ng) /\
+                     forall c' r, In (OBind c' r) o -> c' = c /\ r = rid_po po)) (nwr_no_wire o c l t H Hin)).
+  destruct e; cbn [step].
+  - match goal with |- context [h_send s p dial len tag ?fb0 ?a0 ?b0 ?c0] =>
+      pose proof (Pl_send nwr (fun _ => eq_refl) (fun _ _ => eq_refl) (fun _ => eq_refl) (fun _ _ => eq_refl) s p dial len tag fb0 a0 b0 c0) as H end.
+    destruct (h_send _ _ _ _ _ _ _ _ _) as [s1 o]. apply B. exact H.
+  - pose proof (Pl_cancel nwr (fun _ _ => eq_refl) (fun _ _ _ => eq_refl) s rid) as H. destruct (h_cancel s rid) as [s1 o]. apply B. exact H.
+  - destruct (conn_of p en); cbn [fst snd]; [intros []|].
+    match goal with |- context [h_established s p ?n ?sd] =>
+      pose proof (Pl_established nwr (fun _ _ => eq_refl) (fun _ _ => eq_refl) s p n sd) as H end.
+    destruct (h_established _ _ _ _) as [s1 o]. apply B. exact H.
+  - destruct (conn_of p en); cbn [fst snd]; [|intros []].
+    pose proof (Pl_closed nwr (fun _ _ => eq_refl) s p) as H. destruct (h_closed s p) as [s1 o]. apply B. exact H.
+  - pose proof (Pl_dialfail nwr (fun _ _ => eq_refl) s p) as H. destruct (h_dialfail s p) as [s1 o]. apply B. exact H.
+  - (* opened *)
+    destruct (nth_mod k (opens en)) as [[sid q]|]; cbn [fst snd]; [|intros []].
+    unfold h_opened. destruct (find_po sid (pouts s)) as [po|] eqn:Fp; [|intros []].
+    pose proof (opened_body_wire cf0 s po (N.of_nat (length (chans en))) (N.min gate 2) (now en) neg c l t) as W.
+    pose proof (opened_body_ncl cf0 s po (N.of_nat (length (chans en))) (N.min gate 2) (now en) neg) as NC.
+    destruct (opened_body _ _ _ _ _ _ _) as [s1 o]. cbn [fst snd] in *.
+    intros [Hin|Hin]; [discriminate|]. destruct (W Hin) as (-> & -> & ->).
+    right. exists k, gate, neg, po. split; [reflexivity|]. split; [exact (proj1 (find_in _ _ _ Fp))|].
+    repeat split; try reflexivity.
+    + destruct H as [H|H]; [injection H as <- _; reflexivity|].
+      apply ncl_nocall in NC. destruct NC as (_ & _ & N3). exfalso.
+      assert (In (c', r) (o_binds o)) by (unfold o_binds; apply in_flat_map; exists (OBind c' r); split; [exact H|left; reflexivity]).
+      rewrite N3 in H0. destruct H0.
+    + destruct H as [H|H]; [injection H as _ <-; reflexivity|].
+      apply ncl_nocall in NC. destruct NC as (_ & _ & N3). exfalso.
+      assert (In (c', r) (o_binds o)) by (unfold o_binds; apply in_flat_map; exists (OBind c' r); split; [exact H|left; reflexivity]).
+      rewrite N3 in H0. destruct H0.
+  - destruct (nth_mod k (opens en)) as [[sid q]|]; cbn [fst snd]; [|intros []].
+    pose proof (Pl_openfail nwr (fun _ _ => eq_refl) s sid unsupported) as H. destruct (h_openfail _ _ _) as [s1 o]. apply B. exact H.
+  - (* unblock *)
+    destruct (chans en) as [|ch0 chs]; cbn [fst snd]; [intros []|].
+    destruct (nth_error _ _) as [ch|]; cbn [fst snd]; [|intros []].
+    destruct (c_gate ch =? 0); cbn [fst snd]; [|intros []].
+    pose proof (unblock_wire cf0 s (k mod N.of_nat (length (ch0 :: chs))) (now en) c l t) as W.
+    pose proof (unblock_ncl cf0 s (k mod N.of_nat (length (ch0 :: chs))) (now en)) as NC1.
+    destruct (fut_unblock _ _ _ _) as [s1 o1]. cbn [fst snd] in *.
+    pose proof (rsp_gate_nwr s1 (k mod N.of_nat (length (ch0 :: chs))) true) as H2.
+    pose proof (rsp_gate_ncl s1 (k mod N.of_nat (length (ch0 :: chs))) true) as NC2.
+    destruct (rsp_gate _ _ _) as [s2 o2]. cbn [fst snd] in *.
+    intros Hin. apply in_app_or in Hin. destruct Hin as [Hin|Hin]; [|destruct (nwr_no_wire _ _ _ _ H2 Hin)].
+    destruct (W Hin) as [f [Hf [E1 [E2 E3]]]]. left. exists f. repeat split; auto.
+    intros c' r Hb. pose proof (ncl_nocall _ (ncl_app _ _ NC1 NC2)) as (_ & _ & N3).
+    assert (In (c', r) (o_binds (o1 ++ o2))) by (unfold o_binds; apply in_flat_map; exists (OBind c' r); split; [exact Hb|left; reflexivity]).
+    rewrite N3 in H. destruct H.
+  - destruct (chans en) as [|ch0 chs]; cbn [fst snd]; [intros []|].
+    destruct (nth_error _ _) as [ch|]; cbn [fst snd]; [|intros []].
+    destruct (c_gate ch =? 2); cbn [fst snd]; [intros []|].
+    pose proof (Pl_breakw nwr (fun _ _ => eq_refl) (fun _ _ _ => eq_refl) s (k mod N.of_nat (length (ch0 :: chs)))) as H1.
+    destruct (fut_breakw _ _) as [s1 o1]. cbn [fst snd] in *.
+    pose proof (rsp_gate_nwr s1 (k mod N.of_nat (length (ch0 :: chs))) false) as H2.
+    destruct (rsp_gate _ _ _) as [s2 o2]. cbn [fst snd] in *. apply B. apply Pl_app; assumption.
+  - destruct (chans en) as [|ch0 chs]; cbn [fst snd]; [intros []|].
+    destruct (nth_error _ _) as [ch|]; cbn [fst snd]; [|intros []].
+    destruct (c_out ch && c_seen ch); cbn [fst snd]; [|intros []].
+    match goal with |- context [fut_read s ?c0 ?r] =>
+      pose proof (Pl_read nwr (fun _ _ => eq_refl) (fun _ _ _ => eq_refl) (fun _ _ => eq_refl) s c0 r) as H; destruct (fut_read s c0 r) as [s1 o] end.
+    apply B. exact H.
+  - destruct (chans en) as [|ch0 chs]; cbn [fst snd]; [intros []|].
+    destruct (nth_error _ _) as [ch|]; cbn [fst snd]; [|intros []].
+    destruct (c_out ch); [destruct (c_seen ch)|]; cbn [fst snd]; try (intros []).
+    + match goal with |- context [fut_read s ?c0 ?r] =>
+        pose proof (Pl_read nwr (fun _ _ => eq_refl) (fun _ _ _ => eq_refl) (fun _ _ => eq_refl) s c0 r) as H; destruct (fut_read s c0 r) as [s1 o] end.
+      apply B. exact H.
+    + match goal with |- context [h_inread s ?c0 ?g ?l0 ?t0] =>
+        pose proof (inread_nwr s c0 g l0 t0) as H; destruct (h_inread s c0 g l0 t0) as [s1 o] end. apply B. exact H.
+  - destruct (chans en) as [|ch0 chs]; cbn [fst snd]; [intros []|].
+    destruct (nth_error _ _) as [ch|]; cbn [fst snd]; [|intros []].
+    destruct (c_out ch); [destruct (c_seen ch)|]; cbn [fst snd]; try (intros []).
+    + match goal with |- context [fut_read s ?c0 ?r] =>
+        pose proof (Pl_read nwr (fun _ _ => eq_refl) (fun _ _ _ => eq_refl) (fun _ _ => eq_refl) s c0 r) as H; destruct (fut_read s c0 r) as [s1 o] end.
+      apply B. exact H.
+    + match goal with |- context [h_inread s ?c0 ?g ?l0 ?t0] =>
+        pose proof (inread_nwr s c0 g l0 t0) as H; destruct (h_inread s c0 g l0 t0) as [s1 o] end. apply B. exact H.
+  - pose proof (Pl_advance nwr (fun _ _ => eq_refl) (fun _ _ _ => eq_refl) s (now en + dt)) as H.
+    destruct (fut_advance s (now en + dt)) as [s1 o]. cbn [fst snd] in *. apply B. apply Pl_app; [exact H|apply adv_out_nwr].
+  - destruct (conn_of p en); cbn [fst snd]; [|intros []].
+    pose proof (inopen_shape cf0 s p (N.of_nat (length (chans en))) neg) as (O & _).
+    destruct (h_inopen _ _ _ _ _) as [s1 o]. cbn [fst snd] in *. subst o. intros [].
+  - destruct (chans en) as [|ch0 chs]; cbn [fst snd]; [intros []|].
+    destruct (nth_error _ _) as [ch|]; cbn [fst snd]; [|intros []].
+    destruct (negb (c_out ch)); cbn [fst snd]; [|intros []].
+    match goal with |- context [h_inread s ?c0 ?g ?l0 ?t0] =>
+      pose proof (inread_nwr s c0 g l0 t0) as H; destruct (h_inread s c0 g l0 t0) as [s1 o] end. apply B. exact H.
+  - destruct (nth_mod k (hpend en)) as [irid|]; cbn [fst snd]; [|intros []].
+    match goal with |- context [h_uresp cf0 s ?a ?b ?c0 ?f ?d ?e0] =>
+      pose proof (uresp_nwr cf0 s a b c0 f d e0) as H; destruct (h_uresp cf0 s a b c0 f d e0) as [s1 o] end. apply B. exact H.
+  - destruct (nth_mod k (hpend en)) as [irid|]; cbn [fst snd]; intros [].
+  - cbn [fst snd]. intros [].
+  - cbn [fst snd]. intros [].
+  - cbn [fst snd]. intros [].
+  - cbn [fst snd]. intros [].
+Qed.
+
+Definition sent_ids (o : list out) : list N := flat_map (fun x => match x with OSent r => [r] | _ => [] end) o.
+
+Lemma send_reqs s p dial len tag fb ok dok sid q :
+  In q (reqs (fst (h_send s p dial len tag fb ok dok sid))) -> In q (reqs s) \/ q = mkReq (next_rid s) len tag fb.
+Proof.
+  rewrite !in_reqs. unfold h_send. simp_sets.
+  destruct (memN p (peers s)); [destruct ok|destruct dial; cbn [negb]; [destruct dok|]]; cbn [fst]; simp_sets;
+    try (intros H; left; exact H).
+  - intros [H|[[po [Hpo E]]|H]]; [left; left; exact H| |left; right; right; exact H].
+    apply in_app_or in Hpo. destruct Hpo as [Hpo|[<-|[]]]; [left; right; left; exists po; auto|right; symmetry; exact E].
+  - intros [[d [Hd E]]|H]; [|left; right; exact H].
+    apply in_app_or in Hd. destruct Hd as [Hd|[<-|[]]]; [left; left; exists d; auto|right; symmetry; exact E].
+Qed.
+Lemma send_sent s p dial len tag fb ok dok sid :
+  sent_ids (snd (h_send s p dial len tag fb ok dok sid)) = [next_rid s].
+Proof. unfold h_send. repeat match goal with |- context [if ?x then _ else _] => destruct x end; reflexivity. Qed.
+
+Lemma opened_body_reqs cf0 s po c gate now neg q :
+  In po (pouts s) ->
+  In q (reqs (fst (opened_body cf0 s po c gate now neg))) ->
+  In q (reqs s) \/ q = mkReq (q_rid (po_req po)) (fst (chosen (po_req po) neg)) (snd (chosen (po_req po) neg)) (q_fb (po_req po)).
+Proof.
+  intros Hin. unfold opened_body. cbn [q_rid q_len q_tag q_fb].
+  assert (HS : forall res, In q (reqs (fst (settle (set_pouts s (drop_po po (pouts s))) (po_peer po) (q_rid (po_req po)) res))) -> In q (reqs s)).
+  { intros res. rewrite !in_reqs. unfold settle. destruct (_ && _); cbn [fst]; simp_sets;
+      (intros [H|[[po' [Hpo E]]|H]]; [left; exact H|right; left; exists po'; unfold drop_po in Hpo; apply filter_In in Hpo; destruct Hpo; auto|right; right; exact H]). }
+  destruct (max_size cf0 <? _); [intros H; left; exact (HS _ H)|].
+  destruct gate as [|[g|g|]]; try (intros H; left; exact (HS _ H)); rewrite !in_reqs; cbn [fst]; simp_sets;
+    (intros [H|[[po' [Hpo E]]|[f [Hf E]]]];
+     [left; left; exact H
+     |left; right; left; exists po'; unfold drop_po in Hpo; apply filter_In in Hpo; destruct Hpo; auto
+     |apply in_app_or in Hf; destruct Hf as [Hf|[<-|[]]]; [left; right; right; exists f; auto|right; symmetry; exact E]]).
+Qed.
+
+(* where a request context comes from *)
+Lemma step_reqs cf0 s en e q :
+  In q (reqs (fst (fst (fst (step cf0 (s, en) e))))) ->
+  In q (reqs s) \/
+  (exists p d l t fb, e = ESend p d l t fb /\ q = mkReq (next_rid s) l t fb) \/
+  (exists k g ng po, e = EOpened k g ng /\ In po (pouts s) /\
+                     q = mkReq (q_rid (po_req po)) (fst (chosen (po_req po) ng)) (snd (chosen (po_req po) ng)) (q_fb (po_req po))).
+Proof.
+  destruct e; cbn [step].
+  - match goal with |- context [h_send s p dial len tag ?fb0 ?a0 ?b0 ?c0] =>
+      pose proof (send_reqs s p dial len tag fb0 a0 b0 c0 q) as H end.
+    destruct (h_send _ _ _ _ _ _ _ _ _) as [s1 o]. cbn [fst] in *. intros Hq. destruct (H Hq) as [A|A]; [left; exact A|].
+    right. left. exists p, dial, len, tag, fb. auto.
+  - pose proof (cancel_ReqsSub s rid q) as H. destruct (h_cancel s rid) as [s1 o]. intros Hq. left. exact (H Hq).
+  - destruct (conn_of p en); cbn [fst]; [auto|].
+    match goal with |- context [h_established s p ?n ?sd] => pose proof (established_ReqsSub s p n sd q) as H end.
+    destruct (h_established _ _ _ _) as [s1 o]. intros Hq. left. exact (H Hq).
+  - destruct (conn_of p en); cbn [fst]; [|auto].
+    pose proof (closed_ReqsSub s p q) as H. destruct (h_closed s p) as [s1 o]. intros Hq. left. exact (H Hq).
+  - pose proof (dialfail_ReqsSub s p q) as H. destruct (h_dialfail s p) as [s1 o]. intros Hq. left. exact (H Hq).
+  - destruct (nth_mod k (opens en)) as [[sid q0]|]; cbn [fst]; [|auto].
+    unfold h_opened. destruct (find_po sid (pouts s)) as [po|] eqn:Fp; [|auto].
+    pose proof (opened_body_reqs cf0 s po (N.of_nat (length (chans en))) (N.min gate 2) (now en) neg q (proj1 (find_in _ _ _ Fp))) as H.
+    destruct (opened_body _ _ _ _ _ _ _) as [s1 o]. cbn [fst] in *. intros Hq. destruct (H Hq) as [A|A]; [left; exact A|].
+    right. right. exists k, gate, neg, po. split; [reflexivity|]. split; [exact (proj1 (find_in _ _ _ Fp))|exact A].
+  - destruct (nth_mod k (opens en)) as [[sid q0]|]; cbn [fst]; [|auto].
+    pose proof (openfail_ReqsSub s sid unsupported q) as H. destruct (h_openfail _ _ _) as [s1 o]. intros Hq. left. exact (H Hq).
+  - destruct (chans en) as [|ch0 chs]; cbn [fst]; [auto|].
+    destruct (nth_error _ _) as [ch|]; cbn [fst]; [|auto].
+    destruct (c_gate ch =? 0); cbn [fst]; [|auto].
+    pose proof (unblock_ReqsSub cf0 s (k mod N.of_nat (length (ch0 :: chs))) (now en)) as H.
+    destruct (fut_unblock _ _ _ _) as [s1 o1]. cbn [fst] in *.
+    pose proof (rsp_gate_same s1 (k mod N.of_nat (length (ch0 :: chs))) true) as [H2 _].
+    destruct (rsp_gate _ _ _) as [s2 o2]. cbn [fst] in *. intros Hq. left. apply H. exact (same_ledger_ReqsSub _ _ H2 q Hq).
+  - destruct (chans en) as [|ch0 chs]; cbn [fst]; [auto|].
+    destruct (nth_error _ _) as [ch|]; cbn [fst]; [|auto].
+    destruct (c_gate ch =? 2); cbn [fst]; [auto|].
+    pose proof (breakw_ReqsSub s (k mod N.of_nat (length (ch0 :: chs)))) as H.
+    destruct (fut_breakw _ _) as [s1 o1]. cbn [fst] in *.
+    pose proof (rsp_gate_same s1 (k mod N.of_nat (length (ch0 :: chs))) false) as [H2 _].
+    destruct (rsp_gate _ _ _) as [s2 o2]. cbn [fst] in *. intros Hq. left. apply H. exact (same_ledger_ReqsSub _ _ H2 q Hq).
+  - destruct (chans en) as [|ch0 chs]; cbn [fst]; [auto|].
+    destruct (nth_error _ _) as [ch|]; cbn [fst]; [|auto].
+    destruct (c_out ch && c_seen ch); cbn [fst]; [|auto].
+    match goal with |- context [fut_read s ?c0 ?r] =>
+      pose proof (read_ReqsSub s c0 r q) as H; destruct (fut_read s c0 r) as [s1 o] end. intros Hq. left. exact (H Hq).
+  - destruct (chans en) as [|ch0 chs]; cbn [fst]; [auto|].
+    destruct (nth_error _ _) as [ch|]; cbn [fst]; [|auto].
+    destruct (c_out ch); [destruct (c_seen ch)|]; cbn [fst]; auto.
+    + match goal with |- context [fut_read s ?c0 ?r] =>
+        pose proof (read_ReqsSub s c0 r q) as H; destruct (fut_read s c0 r) as [s1 o] end. intros Hq. left. exact (H Hq).
+    + match goal with |- context [h_inread s ?c0 ?g ?l0 ?t0] =>
+        pose proof (inread_same s c0 g l0 t0) as [H _]; destruct (h_inread s c0 g l0 t0) as [s1 o] end.
+      intros Hq. left. exact (same_ledger_ReqsSub _ _ H q Hq).
+  - destruct (chans en) as [|ch0 chs]; cbn [fst]; [auto|].
+    destruct (nth_error _ _) as [ch|]; cbn [fst]; [|auto].
+    destruct (c_out ch); [destruct (c_seen ch)|]; cbn [fst]; auto.
+    + match goal with |- context [fut_read s ?c0 ?r] =>
+        pose proof (read_ReqsSub s c0 r q) as H; destruct (fut_read s c0 r) as [s1 o] end. intros Hq. left. exact (H Hq).
+    + match goal with |- context [h_inread s ?c0 ?g ?l0 ?t0] =>
+        pose proof (inread_same s c0 g l0 t0) as [H _]; destruct (h_inread s c0 g l0 t0) as [s1 o] end.
+      intros Hq. left. exact (same_ledger_ReqsSub _ _ H q Hq).
+  - pose proof (complete_all_ReqsSub (filter (fun f => f_dl f <=? now en + dt) (futs s)) s (RErr E_TIMEOUT) q) as H.
+    unfold fut_advance. destruct (complete_all _ _ _) as [s1 o]. cbn [fst] in *. intros Hq. left. apply H. exact Hq.
+  - destruct (conn_of p en); cbn [fst]; [|auto].
+    pose proof (inopen_same cf0 s p (N.of_nat (length (chans en))) neg) as [H _].
+    destruct (h_inopen _ _ _ _ _) as [s1 o]. intros Hq. left. exact (same_ledger_ReqsSub _ _ H q Hq).
+  - destruct (chans en) as [|ch0 chs]; cbn [fst]; [auto|].
+    destruct (nth_error _ _) as [ch|]; cbn [fst]; [|auto].
+    destruct (negb (c_out ch)); cbn [fst]; [|auto].
+    match goal with |- context [h_inread s ?c0 ?g ?l0 ?t0] =>
+      pose proof (inread_same s c0 g l0 t0) as [H _]; destruct (h_inread s c0 g l0 t0) as [s1 o] end.
+    intros Hq. left. exact (same_ledger_ReqsSub _ _ H q Hq).
+  - destruct (nth_mod k (hpend en)) as [irid|]; cbn [fst]; [|auto].
+    match goal with |- context [h_uresp cf0 s ?a ?b ?c0 ?f ?d ?e0] =>
+      pose proof (uresp_same cf0 s a b c0 f d e0) as [H _]; destruct (h_uresp cf0 s a b c0 f d e0) as [s1 o] end.
+    intros Hq. left. exact (same_ledger_ReqsSub _ _ H q Hq).
+  - destruct (nth_mod k (hpend en)) as [irid|]; cbn [fst]; auto.
+  - cbn [fst]. auto.
+  - cbn [fst]. auto.
+  - cbn [fst]. auto.
+  - cbn [fst]. auto.
+Qed.
+
+(* what send_request was given for each request id: (length, tag, fallback variant) *)
+Definition payinfo := (N * N * option (N * N * N))%type.
+Definition pay_ok (x : payinfo) (l t : N) : Prop :=
+  (l, t) = (fst (fst x), snd (fst x)) \/ exists n fl ft, snd x = Some (n, fl, ft) /\ (l, t) = (fl, ft).
+Definition okreq (sp : list (N * payinfo)) (q : req) : Prop :=
+  exists l t, In (q_rid q, (l, t, q_fb q)) sp /\ pay_ok (l, t, q_fb q) (q_len q) (q_tag q).
+Definition sp_step (e : ev) (o : list out) (sp : list (N * payinfo)) : list (N * payinfo) :=
+  sp ++ match e with ESend _ _ l t fb => map (fun r => (r, (l, t, fb))) (sent_ids o) | _ => [] end.
+
+Record Inv7 (sp : list (N * payinfo)) (s : pst) (en : env) (tr : list out) : Prop := mkInv7 {
+  w_req : forall q, In q (reqs s) -> okreq sp q;
+  w_fun : forall r x y, In (r, x) sp -> In (r, y) sp -> x = y;
+  w_lt : forall r x, In (r, x) sp -> r < next_rid s;
+  w_wire : forall c rid l t, In (OBind c rid) tr -> In (OWire c l t) tr -> exists x, In (rid, x) sp /\ pay_ok x l t;
+  w_wlt : forall c l t, In (OWire c l t) tr -> c < nch en
+}.
+
+Lemma Inv7_init : Inv7 [] init_pst init_env [].
+Proof. constructor; cbn; intros; contradiction. Qed.
+
+Lemma chosen_ok l t fb q ng :
+  q_fb q = fb -> pay_ok (l, t, fb) (q_len q) (q_tag q) ->
+  pay_ok (l, t, fb) (fst (chosen q ng)) (snd (chosen q ng)).
+Proof.
+  intros E H. unfold chosen. rewrite E. destruct fb as [[[n fl] ft]|]; [|exact H].
+  destruct (negb (ng =? 0) && (n =? ng)); [|exact H]. right. exists n, fl, ft. split; reflexivity.
+Qed.
+
+Lemma step_next_rid cf0 s en e : next_rid s <= next_rid (fst (fst (fst (step cf0 (s, en) e)))).
+Proof. exact (proj1 (step_DP cf0 s en e)). Qed.
+
+Lemma step_Inv7 cf0 s en e tr used sp :
+  Inv s tr -> Inv4 s en tr used -> Inv7 sp s en tr ->
+  let r := step cf0 (s, en) e in
+  Inv7 (sp_step e (snd (fst r)) sp) (fst (fst (fst r))) (snd (fst (fst r))) (tr ++ snd (fst r)).
+Proof.
+  intros I I4 [W1 W2 W3 W4 W5] r.
+  pose proof (step_reqs cf0 s en e) as SR. pose proof (step_wire cf0 s en e) as SW.
+  pose proof (step_facts cf0 s en e) as SF. pose proof (step_next_rid cf0 s en e) as NR. cbn zeta in SF. fold r in SR, SW, SF, NR.
+  assert (Hsent : forall p d l t fb, e = ESend p d l t fb -> sent_ids (snd (fst r)) = [next_rid s] /\
+                                      next_rid s < next_rid (fst (fst (fst r)))).
+  { intros p d l t fb ->. subst r. cbn [step].
+    match goal with |- context [h_send s p d l t fb ?a0 ?b0 ?c0] => pose proof (send_sent s p d l t fb a0 b0 c0) as H end.
+    unfold h_send in *. simp_sets.
+    repeat match goal with |- context [if ?x then _ else _] => destruct x end; cbn [fst snd] in *; simp_sets; split; try exact H; lia. }
+  assert (Hmono : forall x, In x sp -> In x (sp_step e (snd (fst r)) sp)) by (intros x H; apply in_or_app; left; exact H).
+  assert (Hok : forall q, okreq sp q -> okreq (sp_step e (snd (fst r)) sp) q).
+  { intros q [l [t [H1 H2]]]. exists l, t. split; [apply Hmono; exact H1|exact H2]. }
+  destruct SF as [L F B R Q0].
+  constructor.
+  - (* every context carries what send_request was given *)
+    intros q Hq. destruct (SR q Hq) as [Hold|[Hs0|Ho0]];
+      [|destruct Hs0 as [p [d [l [t [fb [Ee Eq]]]]]]|destruct Ho0 as [k [g [ng [po [Ee [Hpo Eq]]]]]]].
+    + apply Hok. exact (W1 q Hold).
+    + destruct (Hsent p d l t fb Ee) as [Hs _]. subst q. exists l, t. cbn [q_rid q_fb q_len q_tag]. split; [|left; reflexivity].
+      unfold sp_step. rewrite Ee at 1. apply in_or_app. right. rewrite Hs. left. reflexivity.
+    + assert (Hq0 : In (po_req po) (reqs s)) by (apply in_reqs; right; left; exists po; auto).
+      destruct (W1 _ Hq0) as [l [t [H1 H2]]]. subst q. exists l, t. cbn [q_rid q_fb q_len q_tag]. split; [apply Hmono; exact H1|].
+      apply chosen_ok; [reflexivity|exact H2].
+  - intros r0 x y Hx Hy. unfold sp_step in Hx, Hy. apply in_app_or in Hx. apply in_app_or in Hy.
+    destruct e; try (destruct Hx as [Hx|[]]; destruct Hy as [Hy|[]]; exact (W2 r0 x y Hx Hy)).
+    destruct (Hsent p dial len tag fb eq_refl) as [Hs _]. rewrite Hs in Hx, Hy. cbn [map In] in Hx, Hy.
+    destruct Hx as [Hx|[Hx|[]]], Hy as [Hy|[Hy|[]]].
+    + exact (W2 r0 x y Hx Hy).
+    + injection Hy as <- <-. specialize (W3 _ _ Hx). lia.
+    + injection Hx as <- <-. specialize (W3 _ _ Hy). lia.
+    + congruence.
+  - intros r0 x Hx. unfold sp_step in Hx. apply in_app_or in Hx. destruct Hx as [Hx|Hx]; [specialize (W3 _ _ Hx); lia|].
+    destruct e; try destruct Hx. destruct (Hsent p dial len tag fb eq_refl) as [Hs Hn]. rewrite Hs in Hx.
+    destruct Hx as [Hx|[]]. injection Hx as <- _. exact Hn.
+  - (* a frame on a bound carrier is that request's payload *)
+    intros c rid l t Hb Hw. apply in_app_or in Hb. apply in_app_or in Hw.
+    destruct Hb as [Hb|Hb], Hw as [Hw|Hw].
+    + destruct (W4 c rid l t Hb Hw) as [x [Hx Hp]]. exists x. split; [apply Hmono; exact Hx|exact Hp].
+    + destruct (SW c l t Hw) as [[f [Hf [Ec [El [Et _]]]]]|[k [g [ng [po [_ [_ [Ec _]]]]]]]].
+      * pose proof (b_fut _ _ _ _ I4 f Hf) as Hbf. rewrite Ec in Hbf.
+        pose proof (b_fun _ _ _ _ I4 c rid (rid_f f) Hb Hbf) as Er.
+        assert (Hq : In (f_req f) (reqs s)) by (apply in_reqs; right; right; exists f; auto).
+        destruct (W1 _ Hq) as [l0 [t0 [H1 H2]]]. exists (l0, t0, q_fb (f_req f)).
+        split; [apply Hmono; rewrite Er; exact H1|rewrite El, Et; exact H2].
+      * pose proof (b_lt _ _ _ _ I4 c rid Hb). lia.
+    + destruct (B c rid Hb) as [Ec _]. specialize (W5 c l t Hw). lia.
+    + destruct (SW c l t Hw) as [[f [_ [_ [_ [_ Nb]]]]]|[k [g [ng [po [Ee [Hpo [Ec [El [Et Hb1]]]]]]]]]]; [destruct (Nb c rid Hb)|].
+      destruct (Hb1 c rid Hb) as [_ Er].
+      assert (Hq0 : In (po_req po) (reqs s)) by (apply in_reqs; right; left; exists po; auto).
+      destruct (W1 _ Hq0) as [l0 [t0 [H1 H2]]]. exists (l0, t0, q_fb (po_req po)).
+      split; [apply Hmono; rewrite Er; exact H1|]. rewrite El, Et. apply chosen_ok; [reflexivity|exact H2].
+  - intros c l t Hw. apply in_app_or in Hw. destruct Hw as [Hw|Hw]; [specialize (W5 c l t Hw); lia|].
+    destruct (SW c l t Hw) as [[f [Hf [Ec _]]]|[k [g [ng [po [Ee [_ [Ec [_ [_ Hb1]]]]]]]]]].
+    + pose proof (b_fut _ _ _ _ I4 f Hf) as Hbf. pose proof (b_lt _ _ _ _ I4 _ _ Hbf). lia.
+    + (* the new carrier: the binding of this step gives nch en < nch en' *)
+      subst c.
+      assert (Hex : exists rid, In (OBind (nch en) rid) (snd (fst r))).
+      { clear - Hw Ee. subst r e. cbn [step] in *. destruct (nth_mod k (opens en)) as [[sid q0]|]; cbn [fst snd] in *; [|destruct Hw].
+        unfold h_opened in *. destruct (find_po sid (pouts s)) as [po0|]; [|destruct Hw].
+        destruct (opened_body _ _ _ _ _ _ _) as [s1 o]. cbn [fst snd] in *. eexists. left. reflexivity. }
+      destruct Hex as [rid Hb]. destruct (B _ _ Hb) as [_ [Hlt _]]. exact Hlt.
+Qed.
+
+Definition sp_of (steps : list (ev * list out * option N)) : list (N * payinfo) :=
+  flat_map (fun x => match fst (fst x) with
+                     | ESend _ _ l t fb => map (fun r => (r, (l, t, fb))) (sent_ids (snd (fst x)))
+                     | _ => [] end) steps.
+
+Lemma steps_Inv7 cf0 evs : forall s en tr used sp,
+  Inv s tr -> Inv4 s en tr used -> Inv7 sp s en tr ->
+  exists s' en', Inv7 (sp ++ sp_of (run_steps cf0 (s, en) evs)) s' en' (tr ++ outs_of (run_steps cf0 (s, en) evs)).
+Proof.
+  induction evs as [|e evs IH]; intros s en tr used sp I I4 I7; cbn [run_steps].
+  - exists s, en. cbn. rewrite !app_nil_r. exact I7.
+  - pose proof (step_Inv cf0 s en e tr I) as I'. pose proof (step_Inv4 cf0 s en e tr used I4) as I4'.
+    pose proof (step_Inv7 cf0 s en e tr used sp I I4 I7) as I7'. cbn zeta in *.
+    destruct (step cf0 (s, en) e) as [[[s1 en1] o] tg]. cbn [fst snd] in *.
+    destruct (IH s1 en1 _ _ _ I' I4' I7') as [s2 [en2 J]]. exists s2, en2.
+    rewrite outs_of_cons. cbn [fst snd]. unfold sp_of in *. cbn [flat_map fst snd]. unfold sp_step in J.
+    rewrite !app_assoc. rewrite <- !app_assoc in J. rewrite <- !app_assoc. exact J.
+Qed.
+
+(* The frame written on the carrier that was handed to request rid is the request given to
+   send_request for rid (or its fallback variant). *)
+Theorem request_wire cf0 evs pre p d len tag fb o tg post rid c l t :
+  run_steps cf0 (init_pst, init_env) evs = pre ++ (ESend p d len tag fb, o, tg) :: post ->
+  In (OSent rid) o ->
+  In (OBind c rid) (outs_of (run_steps cf0 (init_pst, init_env) evs)) ->
+  In (OWire c l t) (outs_of (run_steps cf0 (init_pst, init_env) evs)) ->
+  (l, t) = (len, tag) \/ exists n fl ft, fb = Some (n, fl, ft) /\ (l, t) = (fl, ft).
+Proof.
+  intros E Hs Hb Hw.
+  destruct (steps_Inv7 cf0 evs _ _ _ _ _ Inv_init Inv4_init Inv7_init) as [s' [en' J]]. cbn [app] in J.
+  destruct (w_wire _ _ _ _ J c rid l t Hb Hw) as [x [Hx Hp]].
+  assert (Hin : In (rid, (len, tag, fb)) (sp_of (run_steps cf0 (init_pst, init_env) evs))).
+  { rewrite E. unfold sp_of. rewrite flat_map_app. apply in_or_app. right. cbn [flat_map fst snd]. apply in_or_app. left.
+    apply in_map_iff. exists rid. split; [reflexivity|]. unfold sent_ids. apply in_flat_map. exists (OSent rid). split; [exact Hs|left; reflexivity]. }
+  rewrite (w_fun _ _ _ _ J rid x _ Hx Hin) in Hp. exact Hp.
 Qed.
